@@ -52,6 +52,12 @@ CT_EXTERNAL_PREFIXES = ("core::", "<core::", "alloc::", "<alloc::", "subtle::", 
                         "<hybrid_array::", "zeroize::", "<Z as zeroize::", "rand_core::", "num_traits::",
                         "<T as core::", "<I as core::", "<u8 as", "<u16 as", "<u32 as", "<u64 as", "<u128 as",
                         "<usize as", "<i64 as", "<i32 as", "<i8 as", "<bool as", "<&", "<[", "<(")
+# iterator adaptors whose own control flow depends on the items / on the closure's verdict about them
+ITER_CONTROL = {"position", "rposition", "any", "all", "find", "find_map", "take_while", "skip_while", "map_while",
+                "filter", "filter_map", "max", "min", "max_by", "min_by", "max_by_key", "min_by_key", "try_fold",
+                "try_for_each", "eq", "ne", "lt", "le", "gt", "ge", "cmp", "partial_cmp", "is_sorted", "last", "nth",
+                "step_by", "dedup", "retain", "binary_search", "contains", "starts_with", "ends_with", "strip_prefix",
+                "strip_suffix", "split", "trim_start_matches", "iter_eq"}
 FMT_TRAITS = ("core::fmt::Display", "core::fmt::Debug", "core::fmt::LowerHex", "core::fmt::UpperHex",
               "core::fmt::Binary", "core::fmt::Octal")
 
@@ -97,6 +103,20 @@ class CtPolicy(flow.Policy):
                 ls |= flow.v_flat(v)
             if ls:
                 out.append(("extleak", frozenset(ls), {"what": "unknown-external:" + n, "span": term["s"],
+                                                        "macros": term["m"]}))
+        f0 = term["f"]
+        if not callee_ids and argvals and (
+                (f0.get("trait") in ("core::iter::Iterator", "core::iter::DoubleEndedIterator") and
+                 mir.last_seg(f0["decl"]) in ITER_CONTROL and mir.last_seg(f0["decl"]) not in ("eq", "ne", "lt", "le", "gt", "ge", "cmp", "partial_cmp", "max", "min", "last", "nth", "step_by"))
+                or name.startswith(("core::slice::cmp::", "core::array::equality::", "core::slice::<impl [T]>::contains",
+                                    "core::slice::<impl [T]>::binary_search"))
+                or (f0.get("trait") in ("core::cmp::PartialEq", "core::cmp::PartialOrd", "core::cmp::Ord") and
+                    (f0.get("self") or "").lstrip("&").startswith("["))):
+            ls = flow.v_flat(argvals[0])
+            if len(argvals) > 1 and not name.startswith("core::iter"):
+                ls = ls | flow.v_flat(argvals[1])
+            if ls:
+                out.append(("extleak", frozenset(ls), {"what": "data-dependent-control:" + mir.last_seg(name), "span": term["s"],
                                                         "macros": term["m"]}))
         if n in VARTIME_EXTERNALS and not callee_ids:
             ls = set()
